@@ -106,7 +106,9 @@ Total(r) == LET t == Terms(r) IN QSum(<<t.dyn_loss, t.initial_condition, t.norm_
    The equation e is called with (t, x, all networks, all parameters); every other term is the sum over unknowns of
    the single-network term (weight 1 inside) times that unknown's weight. *)
 AllU(r, in) == [u \in DOMAIN r.nets |-> Eval(r.nets[u].V, in)]
-SysRes(r, e, in, th) == Eval(r.eqs[e].R, in \o AllU(r, in) \o th)
+\* an equation may declare heterogeneous parameters (r.eqs[e].het[k], a polynomial over (inputs, th), or <<>>): replaced inside THIS equation only
+SysHet(r, e, in, th) == IF "het" \in DOMAIN r.eqs[e] THEN [k \in DOMAIN th |-> IF r.eqs[e].het[k] = <<>> THEN th[k] ELSE Eval(r.eqs[e].het[k], in \o th)] ELSE th
+SysRes(r, e, in, th) == Eval(r.eqs[e].R, in \o AllU(r, in) \o SysHet(r, e, in, th))
 SysDyn(r) == QSum([e \in DOMAIN r.eqs |->
                  QMul(QI(r.eqs[e].w), QMean([i \in DOMAIN r.inside |->
                      LET v == SysRes(r, e, r.inside[i], ParamsRow(r.th, r.ptab, i)) IN QI(v * v)]))])
